@@ -68,7 +68,7 @@ CLAIMED = {
              text="Generated streams x thread counts 2..16 x stressors; pictures must equal the 1-thread decode, no sanitizer report, teardown returns.",
              note="Data-race clause not decided (spin-wait synchronisation is opaque to TSan); see assumptions in evidence.", ref="4 C09"),
  "C10": dict(tech="coverage-guided fuzzing (libFuzzer + ASan + UBSan) with a structure-aware target and an OBU-aware custom mutator", engine="libfuzzer",
-             text="Two campaigns (seeded corpus of 50 tiny valid streams, empty corpus) in fork mode; every artifact is re-run standalone and keyed by sanitizer kind + innermost library frame; known keys are listed findings.",
+             text="A structured family first (every seed stream with the last 1-4 bytes of one temporal unit missing, each unit in an exact-size heap buffer), then two campaigns (seeded corpus of 50 tiny valid streams, empty corpus) in fork mode; every artifact is re-run standalone and keyed by sanitizer kind + innermost library frame; known keys are listed findings.",
              note="The decoder marks corrupt syntax with assert(0)-and-continue in release builds: the listed known findings are the crash sites reachable through that design.", ref="4 C10"),
  "C23": dict(tech="stateful property-based testing (rapidcheck) of the real SRM under a harness-owned thread schedule + validation of H2 traces from real encodes against a reference model", engine="rapidcheck-harness",
              text="Generated SRM shapes, per-thread programs and schedules run on the real code with real pthreads serialised by a token; model checked after every step; real-encode traces validated with the same invariants.",
